@@ -182,7 +182,9 @@ func TestVerif_C20Processor(t *testing.T) {
 			continue
 		}
 		nframes := 2000 + int(idx)*500
-		c.Case(idx, func() interface{} { return map[string]interface{}{"frames_with_motion_and_refusing_disk_check": nframes} }, func() {
+		c.Case(idx, func() interface{} {
+			return map[string]interface{}{"frames_with_motion_and_refusing_disk_check": nframes}
+		}, func() {
 			var buf bytes.Buffer
 			log.SetOutput(&buf)
 			log.SetFlags(0)
